@@ -154,6 +154,12 @@ def rt(kind, shape_id, opts, active, p=None, d=None, s=None, b=None, text=False)
     return judge(got, ir, kind, opts, active)
 
 
+def pair(kind, shape_a, shape_b, opts, active, p=None, d=None, s=None, b=None):
+    """two round trips in ONE process: the second must not be affected by the first (defaults that are == but differ in type,
+    e.g. False then 0.0, share hash and equality - the classic cache-key collision)"""
+    return rt(kind, shape_a, opts, active, p, d, s, b) and rt(kind, shape_b, opts, active, p, d, s, b)
+
+
 def chain(kinds, shape_id, opts, active, p=None, d=None, s=None, b=None):
     """C05: convert through every kind of `kinds` in turn, judge the last parse against the original"""
     ir = mk_ir(shape_id, p, d, s, b)
